@@ -293,3 +293,31 @@ def c18_r6(ctx):
             ctx.ob(cls, True, "every attribute read by %s's public methods is bound when it is constructed" % cls.name, loc=cls.loc)
     if n < 5:
         raise AnalysisError("only %d writer classes" % n)
+
+
+@rule("C18", "R7", "K9", "the memory codec keeps every kind of per-document data where the next writer finds it",
+      min_instances=1, also=("C08",),
+      clause="BufferedWriter pushes each document through a new writer of one MemoryCodec, so whatever MemPerDocWriter is given for a "
+             "document has to live on the shared MemSegment (keyed by document number), as stored fields, lengths and vectors do "
+             "(finish_doc). Sibling agreement: no kind of per-document data is kept only in the writer instance or in a storage file "
+             "the writer creates under a name that does not depend on the document -- the next writer would start it again.")
+def c18_r7(ctx):
+    prog = ctx.prog
+    K = prog.cls("codec.memory.MemPerDocWriter")
+    fd = K.methods.get("finish_doc")
+    if fd is None:
+        raise AnalysisError("MemPerDocWriter.finish_doc vanished")
+    ctx.saw(fd)
+    kept = sorted(set(norm.canon(t.value).split(".")[-1] for st in ast.walk(fd.node) if isinstance(st, ast.Assign) for t in st.targets
+                      if isinstance(t, ast.Subscript) and norm.canon(t.value).startswith("self._segment.")))
+    ctx.ob(fd, len(kept) >= 3, "finish_doc files the document's data on the shared segment", detail=str(kept))
+    for name, f in sorted(K.methods.items()):
+        creates = [c for c in norm.calls_in(f.node) if norm.call_name(c) == "create_file" and norm.canon(norm.receiver(c)).startswith("self._storage")]
+        for c in creates:
+            arg = c.args[0] if c.args else None
+            per_doc = arg is not None and any(isinstance(x, ast.Name) and x.id in ("docnum",) or (isinstance(x, ast.Attribute) and x.attr == "_docnum")
+                                              for x in ast.walk(arg))
+            ctx.ob(f, per_doc, "MemPerDocWriter.%s() does not start a per-field file again for every writer" % name,
+                   detail="create_file(%s): the file name does not depend on the document, and every BufferedWriter.add_document() makes a "
+                          "new writer -- the values of earlier documents are overwritten" % (norm.canon(arg) if arg is not None else ""),
+                   loc=ctx.nodeloc(f, c))
